@@ -101,7 +101,7 @@ func multiproofSize(txns []V2Transaction) int {
 		} else if height == 0 {
 			return 0
 		}
-		mid := (i + j) / 2
+		mid := i + (j-i)/2
 		left, right := splitLeaves(leaves, mid)
 		return proofSize(i, mid, left) + proofSize(mid, j, right)
 	}
@@ -121,7 +121,7 @@ func computeMultiproof(txns []V2Transaction) (proof []Hash256) {
 		if height == 0 {
 			return // fully consumed
 		}
-		mid := (i + j) / 2
+		mid := i + (j-i)/2
 		left, right := splitLeaves(leaves, mid)
 		if len(left) == 0 {
 			proof = append(proof, right[0].MerkleProof[height-1])
@@ -153,7 +153,7 @@ func expandMultiproof(txns []V2Transaction, proof []Hash256) {
 		} else if height == 0 {
 			return leaves[0].hash()
 		}
-		mid := (i + j) / 2
+		mid := i + (j-i)/2
 		left, right := splitLeaves(leaves, mid)
 		leftRoot := visit(i, mid, left)
 		rightRoot := visit(mid, j, right)
